@@ -1,5 +1,51 @@
 package props
 
-import "regexp"
+import (
+	"regexp"
+	"runtime/debug"
+	"strings"
+
+	"verifsim/core"
+)
 
 var numReProps = regexp.MustCompile(`0x[0-9a-f]+|[0-9]+`)
+
+// stackOfLibrary returns the library frames of the current (recovered) panic;
+// a panic whose innermost frame is harness code is a harness error (exit 2).
+func stackOfLibrary() string {
+	st := string(debug.Stack())
+	if !core.PanicInLibrary(st) {
+		core.Harness("panic in harness code: %s", st)
+	}
+	var keep []string
+	for _, l := range strings.Split(st, "\n") {
+		if strings.HasPrefix(l, "github.com/segmentio/encoding/") {
+			if i := strings.LastIndex(l, "("); i > 0 {
+				l = l[:i]
+			}
+			keep = append(keep, strings.TrimPrefix(l, "github.com/segmentio/encoding/"))
+			if len(keep) >= 8 {
+				break
+			}
+		}
+	}
+	return strings.Join(keep, " <- ")
+}
+
+// panicSite turns "msg\nframe <- frame" into a stable key: message with
+// numbers masked plus the innermost library function.
+func panicSite(pan string) string {
+	msg, frames, _ := strings.Cut(pan, "\n")
+	first, _, _ := strings.Cut(frames, " <- ")
+	if len(msg) > 80 {
+		msg = msg[:80]
+	}
+	return numReProps.ReplaceAllString(msg, "N") + "@" + first
+}
+
+func clipStr(s string, n int) string {
+	if len(s) > n {
+		return s[:n] + "…"
+	}
+	return s
+}
